@@ -4,6 +4,8 @@
 // day and LEN(ord) its number of days, UNINTERPRETED except that consecutive months abut and a month has 21..31 days.
 // A week (ord, index, start) begins on day F1(ord) - off(ord, start) + 7*index, off = (weekday of day 1 - start) mod 7.
 //   next(n): the first day moves by exactly 7n, for every n, and the final from_ym(..) is never refused
+//   get_days: the seven consecutive days from the first day; get_index_in_year: whole weeks since the week 0 of January (terminates)
+//   lemma_week_shape: a week starts on the chosen weekday; weeks 0..wc-1 cover the month; lemma_year_first: the index in year is defined
 // Callee contracts (external_body): SolarMonth::get_week_count == ceil((off + LEN)/7) (f64 ceil: leaf, checked for
 // every month x 7 starts by c14_solar_weeks), SolarMonth::next (K, c11_k_month_next), SolarDay::from_ymd day 1 (C01),
 // SolarDay::get_week == (jdn+1) mod 7 (K, c07_k_week).
@@ -31,6 +33,19 @@ pub proof fn lemma_border(o: int, s: int)
         3 <= wc(o, s) <= 6,
         off(o + 1, s) == 0 ==> week_first(o + 1, 0, s) == week_first(o, wc(o, s), s),
         off(o + 1, s) != 0 ==> week_first(o + 1, 0, s) == week_first(o, wc(o, s) - 1, s),
+{
+    axiom_months(o);
+}
+
+/// the property's static clauses as consequences of the formulas: a week starts on the chosen weekday, the weeks 0..wc-1 of a
+/// month cover every day of it, week 0 contains the first day and the last week the last day
+pub proof fn lemma_week_shape(o: int, i: int, s: int)
+    requires 0 <= s < 7,
+    ensures
+        (week_first(o, i, s) + 1) % 7 == s,
+        week_first(o, 0, s) <= F1(o) <= week_first(o, 0, s) + 6,
+        week_first(o, wc(o, s) - 1, s) <= F1(o) + LEN(o) - 1 <= week_first(o, wc(o, s) - 1, s) + 6,
+        week_first(o, i + 1, s) == week_first(o, i, s) + 7,
 {
     axiom_months(o);
 }
@@ -69,8 +84,16 @@ impl SolarMonth {
     #[verifier::external_body]
     fn get_month(&self) -> (r: usize) ensures r == self.ord() % 12 + 1 { unimplemented!() }
 }
+impl Clone for SolarDay { #[verifier::external_body] fn clone(&self) -> (r: Self) ensures r == *self { unimplemented!() } }
+impl Copy for SolarDay {}
+impl PartialEq for SolarDay {
+    #[verifier::external_body]
+    fn eq(&self, other: &Self) -> (r: bool) ensures r == (self.jdn() == other.jdn()) { unimplemented!() }
+}
 impl SolarDay {
     pub uninterp spec fn jdn(&self) -> int;
+    #[verifier::external_body]
+    fn next(&self, n: isize) -> (r: Self) ensures r.jdn() == self.jdn() + n { unimplemented!() }   // K: c01_k5_next
     #[verifier::external_body]
     fn from_ymd(year: isize, month: usize, day: usize) -> (r: Self)
         requires 1 <= year <= 9999, 1 <= month <= 12, day == 1,
@@ -93,6 +116,38 @@ impl SolarWeek {
         ensures r.month.ord() == 12 * year + month - 1, r.index == index, r.start.idx() == start,
     { unimplemented!() }
 
+    // K (c14_k_solar_week_first_day): the first day of the week
+    #[verifier::external_body]
+    fn get_first_day(&self) -> (r: SolarDay) requires self.wf(), ensures r.jdn() == self.first() { unimplemented!() }
+    //@EXTRACT file=src/tyme/solar.rs impl="impl SolarWeek" fn=get_year
+    //@sig
+        ensures r == self.month.ord() / 12, ORD_MIN <= self.month.ord() <= ORD_MAX ==> 1 <= r <= 9999,
+    //@END
+    //@EXTRACT file=src/tyme/solar.rs impl="impl SolarWeek" fn=get_days loops=1
+    //@sig
+        requires self.wf(),
+        ensures r@.len() == 7, forall|j: int| 0 <= j < 7 ==> (#[trigger] r@[j]).jdn() == self.first() + j,
+    //@loop 0
+        invariant 1 <= i <= 7, l@.len() == i, d.jdn() == self.first(),
+                  forall|j: int| 0 <= j < l@.len() ==> (#[trigger] l@[j]).jdn() == self.first() + j,
+    //@END
+    //@EXTRACT file=src/tyme/solar.rs impl="impl SolarWeek" fn=get_index_in_year loops=1
+    //@sig
+        requires self.wf(), 12 * 3 <= self.month.ord() <= 12 * 9990,
+        ensures 7 * r == self.first() - week_first(12 * (self.month.ord() / 12), 0, self.start.idx()),
+    //@body_start
+        proof { lemma_year_first(self.month.ord(), self.index as int, self.start.idx()); lemma_border(12 * (self.month.ord() / 12), self.start.idx()); }
+    //@loop 0
+        invariant
+            self.wf(), 12 * 3 <= self.month.ord() <= 12 * 9990, first_day.jdn() == self.first(),
+            w.wf(), w.start.idx() == self.start.idx(), i <= 60,
+            12 * (self.month.ord() / 12) <= w.month.ord() && w.month.ord() + w.index <= 12 * (self.month.ord() / 12) + i,
+            w.first() == week_first(12 * (self.month.ord() / 12), 0, self.start.idx()) + 7 * i,
+            w.first() <= self.first(), (self.first() - w.first()) % 7 == 0,
+            self.first() - week_first(12 * (self.month.ord() / 12), 0, self.start.idx()) <= 7 * 56,
+        decreases self.first() - w.first(),
+    //@END
+
     //@EXTRACT file=src/tyme/solar.rs impl="impl Tyme for SolarWeek" fn=next loops=2
     //@sig
         requires
@@ -102,6 +157,8 @@ impl SolarWeek {
         ensures
             r.wf(),
             r.first() == self.first() + 7 * n,
+            r.start.idx() == self.start.idx(),
+            n > 0 ==> self.month.ord() <= r.month.ord() && r.month.ord() + r.index <= self.month.ord() + self.index + n,
     //@body_start
         proof { lemma_border(self.month.ord(), self.start.idx()); }
     //@loop 0
@@ -127,6 +184,21 @@ impl SolarWeek {
     //@END
 }
 
+
+/// a week of year y starts on or after, and a whole number of weeks after, the week 0 of January of y; at most 56 weeks later
+pub proof fn lemma_year_first(o: int, i: int, s: int)
+    requires 0 <= s < 7, 0 <= i < wc(o, s), 12 <= o,
+    ensures ({ let y0 = 12 * (o / 12); let yf = week_first(y0, 0, s);
+               week_first(o, i, s) >= yf && (week_first(o, i, s) - yf) % 7 == 0 && week_first(o, i, s) - yf <= 7 * 56 }),
+{
+    let y0 = 12 * (o / 12);
+    lemma_week_shape(o, i, s); lemma_week_shape(y0, 0, s); lemma_border(o, s);
+    axiom_months(y0); axiom_months(y0 + 1); axiom_months(y0 + 2); axiom_months(y0 + 3); axiom_months(y0 + 4); axiom_months(y0 + 5);
+    axiom_months(y0 + 6); axiom_months(y0 + 7); axiom_months(y0 + 8); axiom_months(y0 + 9); axiom_months(y0 + 10); axiom_months(y0 + 11);
+    assert(y0 <= o <= y0 + 11);
+    assert(F1(o) >= F1(y0));
+    assert(F1(o) <= F1(y0) + 31 * 11);
+}
 
 // ---- LunarWeek::next: the same argument over lunar months (ordinal o, first day FL(o), length CL(o) in 29..30) ----
 pub uninterp spec fn FL(o: int) -> int;
@@ -173,9 +245,17 @@ impl LunarMonth {
     fn get_year(&self) -> (r: isize) ensures r == self.yr() { unimplemented!() }
     #[verifier::external_body]
     fn get_month_with_leap(&self) -> (r: isize) ensures r == self.mwl(), lord_of(self.yr(), self.mwl()) == self.ord() { unimplemented!() }
+    // the month NUMBER without the leap flag: identifies this month only when it is not a leap month (declared so that code
+    // using it where the signed number is needed fails a precondition instead of leaving the unit undecided)
+    #[verifier::external_body]
+    fn get_month(&self) -> (r: usize) ensures r == (if self.mwl() < 0 { -self.mwl() } else { self.mwl() }) { unimplemented!() }
 }
+impl Clone for LunarDay { #[verifier::external_body] fn clone(&self) -> (r: Self) ensures r.jdn() == self.jdn() { unimplemented!() } }
 impl LunarDay {
     pub uninterp spec fn jdn(&self) -> int;
+    // C02: a lunar day stepped by n days is the day n day numbers later
+    #[verifier::external_body]
+    fn next(&self, n: isize) -> (r: Self) ensures r.jdn() == self.jdn() + n { unimplemented!() }
     #[verifier::external_body]
     fn from_ymd(year: isize, month: isize, day: usize) -> (r: Self)
         requires day == 1, 0 <= lord_of(year as int, month as int) <= LO_MAX(),
@@ -201,6 +281,18 @@ impl LunarWeek {
     fn clone(&self) -> (r: Self)
         ensures r.month.ord() == self.month.ord(), r.index == self.index, r.start.idx() == self.start.idx(),
     { unimplemented!() }
+
+    // K (c14_k_lunar_week_first_day): the first day of the week
+    #[verifier::external_body]
+    fn get_first_day(&self) -> (r: LunarDay) requires self.wf(), ensures r.jdn() == self.first() { unimplemented!() }
+    //@EXTRACT file=src/tyme/lunar.rs impl="impl LunarWeek" fn=get_days loops=1
+    //@sig
+        requires self.wf(),
+        ensures r@.len() == 7, forall|j: int| 0 <= j < 7 ==> (#[trigger] r@[j]).jdn() == self.first() + j,
+    //@loop 0
+        invariant 1 <= i <= 7, l@.len() == i, n.jdn() == self.first(),
+                  forall|j: int| 0 <= j < l@.len() ==> (#[trigger] l@[j]).jdn() == self.first() + j,
+    //@END
 
     //@EXTRACT file=src/tyme/lunar.rs impl="impl Tyme for LunarWeek" fn=next loops=2
     //@sig
